@@ -40,6 +40,22 @@ def cases(tier, seed):
 
 
 def field_forms(names):
+    """(tag, numpy index, class): class A must be exact, class B (negative / unsorted / strided) exact or an exception"""
+    return [f + ("A",) for f in field_forms_a(names)] + field_forms_b(names)
+
+
+def field_forms_b(names):
+    n = len(names)
+    forms = [(["int", -1], n - 1, "B")]
+    if n >= 2:
+        forms += [(["list", [n - 1, 0]], [n - 1, 0], "B"), (["names", [names[n - 1], names[0]]], [n - 1, 0], "B"),
+                  (["slice", None, None, 2], slice(None, None, 2), "B"), (["list", [0, 0]], [0, 0], "B")]
+    if n >= 3:
+        forms += [(["list", [1, 2, 0]], [1, 2, 0], "B"), (["list", [0, 2, 1]], [0, 2, 1], "B"), (["slice", -2, None, None], slice(-2, None), "B")]
+    return forms
+
+
+def field_forms_a(names):
     n = len(names)
     forms = [(["name", names[0]], 0), (["int", n - 1], n - 1), (["slice", None, None, None], slice(None))]
     if n >= 2:
@@ -66,7 +82,7 @@ def run_case(case, workdir):
     levels = range(ref.nlevels) if case.get("devlevel") is None else [case["devlevel"]]
     for lv in levels:
         nb = len(ref.boxes[lv])
-        for ftag, fidx in field_forms(names):
+        for ftag, fidx, fcls in field_forms(names):
             exp_boxes = [ref.data[lv][b][..., fidx] for b in range(nb)]
             exp_ms = multiset(exp_boxes)
 
@@ -83,7 +99,8 @@ def run_case(case, workdir):
                         trans=sum(c["n"] for c in ctl.calls))
                 sub = {"op": "iter", "field": ftag, "level": lv, "plan": explorer.plan_json(plan)}
                 if st == "exc":
-                    rec.fail("iter_raised", sub, exc_text(val))
+                    if fcls == "A":
+                        rec.fail("iter_raised", sub, exc_text(val))
                     continue
                 rec.outcome(h64([dh, ftag, lv, [zlib.crc32(m[1]) for m in multiset(val)]]))
                 if len(val) != nb:
@@ -91,7 +108,7 @@ def run_case(case, workdir):
                 elif not all(isinstance(v, np.ndarray) for v in val) or multiset(val) != exp_ms:
                     rec.fail("iter_values", sub, "yielded boxes are not the stored boxes (as a multiset)")
             # on-demand iterator: requested order
-            if ftag[0] not in ("name", "list", "slice") or (ftag[0] == "slice" and ftag[1] is None):
+            if fcls != "A" or ftag[0] not in ("name", "list", "slice") or (ftag[0] == "slice" and ftag[1] is None):
                 continue
             for btag, bcls, bsel in S.box_selectors(nb, rich=False, maxlist=2):
                 if bcls != "A" or btag[0] == "int":
